@@ -123,6 +123,8 @@ pub struct Cfg {
     pub focus_strict: bool,
     /// from_iter-style constructors get an iterator whose size hint is inexact (lower bound 0)
     pub inexact_iter: bool,
+    /// the iterator handed to the constructor panics after yielding this many items
+    pub iter_panic_at: Option<usize>,
 }
 
 impl Cfg {
@@ -151,6 +153,7 @@ impl Cfg {
             pool_max: 2,
             focus_strict: false,
             inexact_iter: false,
+            iter_panic_at: None,
         }
     }
     pub fn limit(&self) -> usize {
@@ -1641,9 +1644,18 @@ impl<'a> Run<'a> {
             cfg.kind,
             Kind::FubIter(_) | Kind::FuIter(_) | Kind::FobIter(_) | Kind::FoIter(_) | Kind::Mb(_) | Kind::Mu(_) | Kind::MuIter(_) | Kind::Ja(_) | Kind::Tja(_) | Kind::JaP(_) | Kind::TjaP(_) | Kind::JaN(_) | Kind::TjaN(_) | Kind::JaZ(_)
         );
+        ITER_PANIC_AT.with(|c| c.set(cfg.iter_panic_at));
+        ITER_PANICKED.with(|c| c.set(false));
         let subj = build(cfg.kind, if by_ctor { &pre } else { &[] }, cfg.inexact_iter);
+        ITER_PANIC_AT.with(|c| c.set(None));
         match subj {
             None => {
+                if ITER_PANICKED.with(|c| c.get()) {
+                    // the caller's own iterator panicked: construction is abandoned, which is fine; what
+                    // matters is that everything it had already handed over is dropped exactly once
+                    w(|w| w.logf(|| "the iterator panicked during construction".to_string()));
+                    return false;
+                }
                 w(|w| w.violate("C15", "constructor-panicked", format!("constructing {:?} panicked", cfg.kind)));
                 return false;
             }
